@@ -6,7 +6,7 @@ import ast
 from fractions import Fraction as F
 
 from ..flow import enumerate_paths, guards_of
-from ..peval import Evaluator, Model, Unsupported, RaisedInModel, ReturnValue
+from ..peval import Evaluator, Model, Unsupported, RaisedInModel, ReturnValue, ProgramRaised
 from ..poly import Poly, Rat, S, C
 from ..source import norm, const_value, walk_no_nested, FuncInfo, ClassInfo, AnalysisError
 from .common import is_name, params, calls_in, returns_of, stores_in, flatten_targets
@@ -87,6 +87,7 @@ def check_leaf_rule(run, tree):
         for lev_label, (ilevel, lmax) in (("below the deepest loaded level", (1, 4)), ("at the deepest loaded level", (3, 4))):
             tenv = {t: son for t in son_txt}
             tenv["%s['lmax']" % INFO] = lmax
+            tenv["%s['levelmax']" % INFO] = 9
             ev = TextEval(tree, fi, tenv, {ILEVEL: ilevel}, NPLOGIC)
             construct = "%s.read_variables::leaf-rule[%s, %s]" % (AMR, son_label, lev_label)
             try:
@@ -101,6 +102,7 @@ def check_leaf_rule(run, tree):
     # also one level deeper check of the off-by-one: ilevel == lmax - 2 must still be interior
     tenv = {t: 5 for t in son_txt}
     tenv["%s['lmax']" % INFO] = 4
+    tenv["%s['levelmax']" % INFO] = 9
     try:
         got = bool(TextEval(tree, fi, tenv, {ILEVEL: 2}, NPLOGIC).ev(expr))
         run.ob(AMR + ".read_variables::leaf-rule[refined, one level above the deepest]", got is False, fi.where(ref[0]),
@@ -347,8 +349,8 @@ def check_vector_assembly(run, tree):
         except (Unsupported, RaisedInModel) as e:
             run.unresolved(construct, fi.where(), "cannot evaluate: %s" % e)
             continue
-        except KeyError as e:
-            run.violated(construct, fi.where(), "KeyError %s" % e, "loading a variable set like %s raises" % keys)
+        except (KeyError, ProgramRaised) as e:
+            run.violated(construct, fi.where(), "raises %s" % e, "loading a variable set like %s raises" % keys)
             continue
         run.ob(construct, data == want, fi.where(), "%s (ndim=%d) -> %s%s" % (keys, ndim, data, "" if data == want else "; required %s" % want),
                "a variable set like %s: components not merged / merged wrongly / a variable lost or renamed" % keys)
